@@ -330,6 +330,21 @@ try:
 except Exception as e:  # noqa
     fail("C02:operand-changed", "formula(f, table=T) raised %s: %s" % (type(e).__name__, e), program="formula(f, table=T)")
 
+# the mass of a formula is the sum over its atoms with the masses the table holds NOW
+try:
+    _T2 = _core.PeriodicTable("verif_c02_masses")
+    _mass.init(_T2)
+    f = formula("Fe{2+}3Fe[56]{3+}O{2-}4D{+}", table=_T2)
+    m0 = f.mass
+    _T2.Fe._mass, _T2.Fe[56]._mass, _T2.D._mass = 50.0, 51.0, 2.5
+    want = 3 * (50.0 - 2 * constants.electron_mass) + (51.0 - 3 * constants.electron_mass) + 4 * (_T2.O.mass + 2 * constants.electron_mass) \
+        + (2.5 - constants.electron_mass)
+    if not rel(f.mass, want, 1e-13) or not rel(sum(f.mass_fraction.values()), 1.0, 1e-12):
+        fail("C02:mass-stale-after-table-edit", "f = formula('Fe{2+}3Fe[56]{3+}O{2-}4D{+}', table=T); f.mass (%r); T.Fe._mass, T.Fe[56]._mass, T.D._mass = "
+             "50, 51, 2.5; f.mass is %r, the sum over its atoms with T's masses is %r" % (m0, f.mass, want), program="edit masses after weighing")
+except Exception as e:  # noqa
+    fail("C02:mass-stale-after-table-edit", "weighing after a table edit raised %s: %s" % (type(e).__name__, e), program="edit masses after weighing")
+
 stats = dict(exact=0, rounded=0, ops={})
 for i in range(nprog):
     exact = (i % 3 != 2)
